@@ -87,6 +87,8 @@ type MemFS struct {
 	FinePoints bool
 	hashed     int
 	logHash    uint64
+	fdLimit    int // -1: no descriptor exhaustion
+	fdCalls    int
 }
 
 // Aliases: directory aliases of the in-memory file system (alias path -> target directory),
@@ -125,7 +127,7 @@ func Canon(p string) string {
 }
 
 func NewMemFS() *MemFS {
-	return &MemFS{files: map[string]*node{}, dirs: map[string]bool{"/": true}, counts: map[string]int{}, faults: map[string]map[int]bool{}}
+	return &MemFS{files: map[string]*node{}, dirs: map[string]bool{"/": true}, counts: map[string]int{}, faults: map[string]map[int]bool{}, fdLimit: -1}
 }
 
 // FailOn makes the n-th (1-based, counted from now on per kind) call of kind fail.
@@ -161,7 +163,27 @@ func (m *MemFS) enter(kind, path string) error {
 	if m.faults[kind][m.counts[kind]] {
 		return &fs.PathError{Op: kind, Path: path, Err: syscall.EIO}
 	}
+	switch kind {
+	case "create", "open", "openfile", "readdir":
+		// calls that need a new file descriptor: once the process has run out of them
+		// (ExhaustDescriptorsAfter) every such call fails until the faults are cleared
+		if m.fdLimit >= 0 {
+			m.fdCalls++
+			if m.fdCalls > m.fdLimit {
+				return &fs.PathError{Op: kind, Path: path, Err: syscall.EMFILE}
+			}
+		}
+	}
 	return nil
+}
+
+// ExhaustDescriptorsAfter: the next n calls that need a file descriptor (create, open,
+// openfile, readdir - ReadFile and WriteFile open their file too) succeed, every later one
+// fails with EMFILE, until ClearFaults. A persistent fault, unlike FailOn.
+func (m *MemFS) ExhaustDescriptorsAfter(n int) {
+	m.mu.Lock()
+	defer m.mu.Unlock()
+	m.fdLimit, m.fdCalls = n, 0
 }
 
 // LogHash summarises the append-only operation log (length + kinds + paths + payload sizes).
@@ -185,6 +207,7 @@ func (m *MemFS) ClearFaults() {
 	m.mu.Lock()
 	defer m.mu.Unlock()
 	m.faults = map[string]map[int]bool{}
+	m.fdLimit = -1
 }
 
 // Exists reports whether a file exists.
